@@ -107,7 +107,12 @@ func parserCalls[G any](p *participle.Parser[G]) func(kind, in string) any {
 		var r callResult
 		switch kind {
 		case "bytes":
-			ast, err := p.ParseBytes("f", []byte(in))
+			// the buffer is the caller's: it is refilled as soon as the call has returned
+			buf := []byte(in)
+			ast, err := p.ParseBytes("f", buf)
+			for i := range buf {
+				buf[i] = '#'
+			}
 			r.AST, r.Err = ast, errStr(err)
 		case "reader":
 			ast, err := p.Parse("f", strings.NewReader(in))
@@ -378,7 +383,11 @@ func checkC09(c *c09Case, r *vstat.Run) outcome {
 			o := objs[op.Obj]
 			in := o.spec.Inputs[op.Input%len(o.spec.Inputs)]
 			if o.expect != nil {
-				expected[k] = o.expect(op.Kind, in)
+				kind := op.Kind
+				if kind == "bytes" || kind == "reader" {
+					kind = "string" // the entry points differ in where the text comes from, not in what they return
+				}
+				expected[k] = o.expect(kind, in)
 			} else {
 				expected[k] = o.call(op.Kind, in)
 			}
